@@ -77,6 +77,44 @@ def _cmp_arrays(ctx, got, want, what, want_poly=False):
     ctx.expect_model(got, M.from_numeric(numpy.asarray(want, dtype=object)), what)
 
 
+def _aliased_out(ctx, name, x, y):
+    """The division written over its own dividend (``out=`` is the first argument, the in-place operator): numpy's values."""
+    import numpoly
+
+    if tuple(numpy.broadcast_shapes(numpy.shape(x), numpy.shape(y))) != tuple(numpy.shape(x)) or numpy.ndim(x) == 0:
+        return
+    for how in ("out=dividend", "in-place operator", "out=view of dividend"):
+        xa = numpy.array(x, copy=True)
+        try:
+            if how == "in-place operator":
+                want = xa.copy()
+                if name == "floor_divide":
+                    want //= y
+                else:
+                    want /= y
+            else:
+                want = getattr(numpy, name)(xa, y, out=xa.copy())
+        except Exception:
+            continue  # numpy refuses this output type (true division into integers): not in the claim
+        a = numpoly.polynomial(numpy.array(x, copy=True))
+        try:
+            if how == "out=dividend":
+                r = getattr(numpoly, name)(a, y, out=a)
+            elif how == "in-place operator":
+                r = a
+                if name == "floor_divide":
+                    r //= y
+                else:
+                    r /= y
+            else:
+                r = getattr(numpy, name)(a, y, out=a.T.T)  # (a view sharing the dividend's storage; poly[...] is a copy)
+        except Exception as e:
+            ctx.unexpected_exception(e, "%s with %s" % (name, how))
+            continue
+        _cmp_arrays(ctx, r, want, "%s with %s" % (name, how), want_poly=True)
+        _cmp_arrays(ctx, a, want, "%s with %s: the dividend afterwards" % (name, how), want_poly=True)
+
+
 def body(ctx: H.BaseCtx):
     import numpoly
 
@@ -142,6 +180,7 @@ def body(ctx: H.BaseCtx):
             _cmp_arrays(ctx, numpoly.remainder(p, q), numpy.remainder(x, y), "remainder", want_poly=True)
             _cmp_arrays(ctx, numpy.floor_divide(p, y), numpy.floor_divide(x, y), "numpy.floor_divide(poly, array)", want_poly=True)
             _cmp_arrays(ctx, p // y, numpy.floor_divide(x, y), "poly // array", want_poly=True)
+            _aliased_out(ctx, "floor_divide", x, y)
             if not ctx.symbolic:  # numpy has no object loop for divmod: native runs only (fidelity / replay)
                 dq, dr = numpoly.divmod(p, q)
                 wq, wr = numpy.divmod(x, y)
@@ -159,6 +198,7 @@ def body(ctx: H.BaseCtx):
             want = x / y
             _cmp_arrays(ctx, numpoly.true_divide(p, q), want, "true_divide", want_poly=True)
             _cmp_arrays(ctx, numpy.true_divide(p, y), want, "numpy.true_divide(poly, array)", want_poly=True)
+            _aliased_out(ctx, "true_divide", x, y)
         elif fn == "nonconst-divisor":
             # a divisor with a non-zero non-constant coefficient must be refused by the *numeric* division functions
             q0 = numpoly.variable()
